@@ -33,7 +33,7 @@ def skeleton(n):
     return _SK[n]
 
 
-def run_history(cfg, frames, container=list):
+def run_history(cfg, frames, container=list, frame_index=None, extra_cfg=None):
     """frames: list of lists of {"id", "pts", "score"}. Returns (records, exception or None).
 
     records[f] = {"in": [(obj id, animal id, score)], "out": [(obj id, track name)], "exc": str|None}
@@ -42,7 +42,7 @@ def run_history(cfg, frames, container=list):
     from sleap_nn.tracking.tracker import Tracker
     from vf import synth
 
-    tracker = Tracker.from_config(**cfg)
+    tracker = Tracker.from_config(**dict(cfg, **(extra_cfg or {})))
     records = []
     for f, dets in enumerate(frames):
         objs = []
@@ -54,7 +54,7 @@ def run_history(cfg, frames, container=list):
                "n_tracks_before": len(tracker.candidate.current_tracks)}
         try:
             with np.errstate(all="ignore"):
-                out = tracker.track(container(objs), f)  # the detections of a frame as a list (documented) or another sequence type
+                out = tracker.track(container(objs), f if frame_index is None else frame_index(f))  # the detections of a frame as a list (documented) or another sequence type
             rec["out"] = [(id(o), (o.track.name if o.track is not None else None)) for o in out]
         except Exception as e:  # the property demands totality: record and stop this history
             import traceback
